@@ -416,9 +416,25 @@ class Fn:
         return local
 
     # -- slices -------------------------------------------------------------------------
-    def slice_locals(self, op_or_local, through_calls=True, stop=None, maxn=4000):
+    def mut_calls(self):
+        """{local: [(bb, call term)]}: calls that receive `&mut local` (or a reborrow of it) and may therefore write it (`v.push(x)`)"""
+        if getattr(self, "_mutcalls", None) is None:
+            m = {}
+            for b, t in self.calls():
+                for a in t["args"]:
+                    l = op_local(a)
+                    if l is None or not self.local_ty(l).startswith("&mut"):
+                        continue
+                    tgt = self.resolve_ptr(l)
+                    if tgt is not None and all(e[0] in ("deref", "field") for e in tgt[1]):
+                        m.setdefault(tgt[0], []).append((b, t))
+            self._mutcalls = m
+        return self._mutcalls
+
+    def slice_locals(self, op_or_local, through_calls=True, stop=None, maxn=4000, mut_calls=False):
         """backward slice: set of locals the operand (transitively) depends on.  Crossing
-        calls: result depends on all arguments.  `stop(local)` prunes."""
+        calls: result depends on all arguments.  `stop(local)` prunes.  With mut_calls, a local also depends on the
+        arguments of every call that borrows it mutably (`v.push(x)` makes v depend on x)."""
         seen = set()
         work = []
         info = {"calls": [], "consts": [], "binops": [], "fields": set()}
@@ -441,6 +457,12 @@ class Fn:
                     info["calls"].append((d[1], t))
                     for a in t["args"]:
                         self._op_deps(a, work, info)
+            if mut_calls and through_calls:
+                for b, t in self.mut_calls().get(l, []):
+                    if (b, t) not in info["calls"]:
+                        info["calls"].append((b, t))
+                        for a in t["args"]:
+                            self._op_deps(a, work, info)
         return seen, info
 
     def _place_deps(self, p, work, info):
